@@ -304,21 +304,75 @@ class Module:
                     lst = [const_str(e) for e in s.value.elts]
         if not lst or None in lst:
             return
+        def template(e):
+            """module-name expression with the loop variable as \\0, or None"""
+            if isinstance(e, ast.Constant) and isinstance(e.value, str):
+                return e.value
+            if isinstance(e, ast.Name) and e.id == st.target.id:
+                return "\0"
+            if isinstance(e, ast.BinOp) and isinstance(e.op, ast.Add):
+                a, b = template(e.left), template(e.right)
+                return a + b if a is not None and b is not None else None
+            if isinstance(e, ast.BinOp) and isinstance(e.op, ast.Mod) and isinstance(e.left, ast.Constant) and isinstance(e.left.value, str):
+                args = e.right.elts if isinstance(e.right, ast.Tuple) else [e.right]
+                if len(args) == 1 and template(args[0]) is not None and e.left.value.count("%s") == 1:
+                    return e.left.value.replace("%s", template(args[0]))
+                return None
+            if isinstance(e, ast.Call) and isinstance(e.func, ast.Attribute) and e.func.attr == "format" and \
+                    isinstance(e.func.value, ast.Constant) and isinstance(e.func.value.value, str) and len(e.args) == 1 and not e.keywords:
+                t = template(e.args[0])
+                f = e.func.value.value
+                if t is not None and (f.count("{0}") + f.count("{}")) == 1:
+                    return f.replace("{0}", t).replace("{}", t)
+                return None
+            if isinstance(e, ast.JoinedStr):
+                out = ""
+                for v in e.values:
+                    if isinstance(v, ast.Constant):
+                        out += v.value
+                    elif isinstance(v, ast.FormattedValue) and v.format_spec is None and v.conversion == -1:
+                        t = template(v.value)
+                        if t is None:
+                            return None
+                        out += t
+                    else:
+                        return None
+                return out
+            return None
+
         for n in ast.walk(st):
-            if isinstance(n, ast.Call) and call_name(n) in ("importlib.import_module",):
+            if isinstance(n, ast.Call) and call_name(n) in ("importlib.import_module", "import_module"):
                 pkg = None
+                pe = n.args[1] if len(n.args) > 1 else None
                 for kw in n.keywords:
                     if kw.arg == "package":
-                        pkg = const_str(kw.value)
-                if pkg is None:
+                        pe = kw.value
+                if pe is not None:
+                    pkg = const_str(pe)
+                    if pkg is None and isinstance(pe, ast.Name) and pe.id == "__name__" and self.is_pkg:
+                        pkg = self.name
+                    elif pkg is None and isinstance(pe, ast.Name) and pe.id == "__package__":
+                        pkg = self.package
+                tmpl = template(n.args[0]) if n.args else None
+                if tmpl is None or "\0" not in tmpl:
                     continue
                 self.dynamic_imports = getattr(self, "dynamic_imports", [])
                 for m in lst:
-                    full = pkg + "." + m
+                    name = tmpl.replace("\0", m)
+                    if name.startswith("."):
+                        if pkg is None:
+                            continue
+                        dots = len(name) - len(name.lstrip("."))
+                        base = pkg.split(".")
+                        if dots > 1:
+                            base = base[: len(base) - (dots - 1)]
+                        full = ".".join(base + [name.lstrip(".")])
+                    else:
+                        full = name
                     self.dynamic_imports.append((st, full))
                     if full in self.repo.modules:
                         # import_module binds the submodule as attribute of the package
-                        if pkg == self.name:
+                        if full.rpartition(".")[0] == self.name:
                             ns[m] = Binding("module", full)
                     else:
                         self.import_errors.append((st, "no module %s" % full, False))
